@@ -167,6 +167,58 @@ def sample_sel_wide(size: int, n: int) -> bool:
         return _sample_sel(size, n)
 
 
+def _sample_interleaved(size, n1, k, n2):
+    """One selector object used by two walks at once: k indices are taken from a generator over n1, then the selector is asked for the
+    whole index list of n2 (and its count / first), then the first generator is finished.  Both walks give what a fresh selector gives."""
+    s = S.Sample(size)
+    # describing the selector for some length (as the conversion tools do before every frame array) tells the truth and changes nothing
+    if s.long_str(n2) != '<Sample %d out of %d>' % (min(size, n2), n2) or str(s) != '<Sample fraction: %d>' % size:
+        return False
+    # when every frame is selected, first / last / step are 0, n - 1 and 1 (the converters slice with first : last + 1 : step)
+    if s.first(n2) != 0:
+        return False
+    if size >= n2 and (s.last(n2) != n2 - 1 or s.step(n2) != 1):
+        return False
+    if s != S.Sample(size):
+        return False
+    g = s.gen_indices(n1)
+    head = []
+    for _ in range(k):
+        try:
+            head.append(next(g))
+        except StopIteration:
+            break
+    mid = s.indices(n2)
+    cnt, gen2 = s.count(n2), list(s.gen_indices(n2))
+    rest = list(g)
+    mark.hit()
+    want1, want2 = S.Sample(size).indices(n1), S.Sample(size).indices(n2)
+    if head + rest != want1 or mid != want2 or gen2 != want2 or cnt != len(want2):
+        return False
+    # two generators advanced in lock step
+    a, b = s.gen_indices(n1), s.gen_indices(n2)
+    ga, gb = [], []
+    for _ in range(max(n1, n2) + 1):
+        for it, acc in ((a, ga), (b, gb)):
+            try:
+                acc.append(next(it))
+            except StopIteration:
+                pass
+    return ga == want1 and gb == want2 and s == S.Sample(size) and s.count(n1) == len(want1)
+
+
+def sample_interleaved(size: int, n1: int, k: int, n2: int) -> bool:
+    """
+    pre: 1 <= size <= 7 and 0 <= n1 <= 12 and 0 <= n2 <= 12 and 0 <= k <= 4
+    pre: PART < 0 or size - 1 == PART
+    post: _
+    """
+    size, n1, k, n2 = mark.pick(size, 1, 7), mark.pick(n1, 0, 12), mark.pick(k, 0, 4), mark.pick(n2, 0, 12)
+    with mark.untraced():
+        # (what a fresh selector gives for one length is decided by the sample_spread obligations)
+        return _sample_interleaved(size, n1, k, n2)
+
+
 def _sample_sel(size, n, first_n=None):
     s = S.Sample(size)
     if first_n is not None:
